@@ -3,13 +3,13 @@ package config
 import (
 	"fmt"
 	"go/printer"
-	"html/template"
 	"os"
 	"path/filepath"
 	"regexp"
 	"runtime"
 	"strings"
 	"sync"
+	"text/template"
 
 	"github.com/go-git/go-git/v5"
 	"github.com/go-git/go-git/v5/plumbing"
@@ -501,7 +501,10 @@ func LoadConfig(filename string) (*Config, error) {
 	return &config, nil
 }
 
-// InitWithConfig initializes configuration with a Config struct
+// InitWithConfig initializes configuration with a Config struct.
+// The file is YAML, not HTML: the template is executed by text/template so that
+// values such as "1.0.0+build" or "feature/c++" are written as given and load back
+// unchanged (html/template would write "1.0.0&#43;build").
 func InitWithConfig(filename string, cfg *Config) error {
 	// parse config template
 	tmpl, err := template.New("config").Parse(CONFIG_TEMPLATE)
